@@ -373,3 +373,196 @@ def check_c10(v: Verdict, t1_summary, n_scen, n_payloads):
     bad = run_tpl_model(v, f"c10_{v.seed}", cases, flags, "TPL/C10", intern)
     report_bad(v, bad, cases, meta, flags, "TPL/C10 (templates with and without forbid: model outcome = implementation outcome)", intern)
     v.coverage["input_distribution"] = hist
+
+
+# ------------------------------------------------------------------------ C09
+
+def make_instance(rng, sc: Scenario):
+    """A real instance of the scenario's class; attribute values are sometimes the defaults (omit_if_default)."""
+    kw = {}
+    for f in sc.spec.fields:
+        if not f.init:
+            continue
+        if f.default is not None and rng.random() < 0.45:
+            if rng.random() < 0.5:
+                continue                      # leave the default
+            kw[f.alias] = f.default           # pass the default explicitly
+        else:
+            kw[f.alias] = rng.randrange(0, 40)
+    return sc.cl(**kw)
+
+
+def consistent_overrides(sc: Scenario):
+    """distinct final keys; omitted attributes have defaults (or are not __init__ arguments)"""
+    keys = [T.key_of(f, sc.ovs, sc.use_alias) for f in sc.spec.fields if T.is_included(f, sc.ovs, sc.incl)]
+    if len(set(keys)) != len(keys):
+        return False
+    for f in sc.spec.fields:
+        if not T.is_included(f, sc.ovs, sc.incl) and f.init and f.default is None:
+            return False
+    return True
+
+
+def check_c09(v: Verdict, t1_summary, n_scen, n_inst):
+    from typing import NamedTuple, TypedDict
+    from cattrs.cols import namedtuple_dict_structure_factory, namedtuple_dict_unstructure_factory
+    from cattrs.gen import override
+    from cattrs.gen.typeddicts import make_dict_structure_fn as td_struct, make_dict_unstructure_fn as td_unstruct
+    from nested_types import NT, TD
+    rng = random.Random(v.seed * 7919 + 9)
+    intern = T.Interner()
+    flags = model_flags(t1_summary)
+    cases, meta = [], []
+    hist = {"scenarios": 0, "instances": 0, "with_overrides": 0, "omit_if_default_global": 0, "renames": 0, "omits": 0, "per_field_oid": 0,
+            "use_alias": 0, "include_init_false": 0, "roundtrips_checked": 0, "keysets_checked": 0, "unsafe_key_scenarios": 0,
+            "generation_failures": 0, "typeddict_checks": 0, "namedtuple_checks": 0, "f3_hits": 0, "f12_hits": 0}
+    for si in range(n_scen):
+        sc = Scenario(rng, si, intern, forbid=False, allow_unsafe=True)
+        sc.ovs = T.gen_overrides(rng, sc.spec, for_unstructure=True, allow_unsafe=(si % 10 == 0)) if rng.random() < 0.75 or si % 10 == 0 else {}
+        # init=False attributes without a default are unset on a fresh instance: only sensible when they are not handled
+        hist["scenarios"] += 1
+        hist["with_overrides"] += bool(sc.ovs)
+        hist["omit_if_default_global"] += sc.oid
+        hist["renames"] += sum(1 for o in sc.ovs.values() if "rename" in o)
+        hist["omits"] += sum(1 for o in sc.ovs.values() if o.get("omit"))
+        hist["per_field_oid"] += sum(1 for o in sc.ovs.values() if "oid" in o)
+        hist["use_alias"] += sc.use_alias
+        hist["include_init_false"] += sc.incl
+        unsafe = unsafe_key(sc)
+        hist["unsafe_key_scenarios"] += unsafe
+        consistent = consistent_overrides(sc)
+        conv = Converter(detailed_validation=rng.random() < 0.5)
+        T.register_handlers(conv, sc.spec, intern)
+        un = st = None
+        gen_err = None
+        try:
+            un = make_dict_unstructure_fn(sc.cl, conv, _cattrs_omit_if_default=sc.oid, _cattrs_use_alias=sc.use_alias,
+                                          _cattrs_include_init_false=sc.incl, **T.real_overrides(sc.ovs))
+            st = make_dict_structure_fn(sc.cl, conv, _cattrs_use_alias=sc.use_alias, _cattrs_include_init_false=sc.incl,
+                                        _cattrs_forbid_extra_keys=False, **T.real_overrides(sc.ovs))
+        except Exception as e:
+            gen_err = e
+            hist["generation_failures"] += 1
+            rp = {"lane": "TPL/C09", "class": sc.describe(), "error": repr(e)}
+            if unsafe and isinstance(e, SyntaxError):
+                hist["f3_hits"] += 1
+                v.finding("F3", "a key containing a quote or a trailing backslash is spliced into the generated source", rp)
+            else:
+                v.violation("hook generation failed for a consistent customisation", rp)
+        for ii in range(n_inst):
+            try:
+                inst = make_instance(rng, sc)
+            except Exception:
+                continue
+            hist["instances"] += 1
+            iv = T.read_instance(inst, sc.spec, intern)
+            if gen_err is not None:
+                out = T.outcome_of_exception(gen_err, intern)
+            else:
+                try:
+                    d = un(inst)
+                    out = ("ok", [(intern(k), val) for k, val in d.items()])
+                except Exception as e:
+                    out = T.outcome_of_exception(e, intern)
+            cases.append("TUnstruct UGen %s %s %s %s %s %s" % (sc.coq_opts(False), T.coq_ovs(sc.ovs, intern),
+                                                                T.c_list(T.cN(i) for i in sc.typed_ids()), sc.coq_fields(),
+                                                                T.c_pairs(iv), T.c_outcome(out)))
+            meta.append((sc, "UGen", iv, out))
+            v.count(sc.describe() + repr(iv), len(sc.spec.fields) >= 2)
+            if gen_err is not None or out[0] != "ok" or not consistent:
+                continue
+            # --- oracle 1: exactly the configured key set
+            exp_keys = set()
+            for f in sc.spec.fields:
+                if not T.is_included(f, sc.ovs, sc.incl) or not hasattr(inst, f.name):
+                    continue
+                o = sc.ovs.get(f.name, {})
+                oid = o["oid"] if "oid" in o else sc.oid
+                if f.default is not None and oid and getattr(inst, f.name) == (K_of(f)):
+                    continue
+                exp_keys.add(T.key_of(f, sc.ovs, sc.use_alias))
+            hist["keysets_checked"] += 1
+            # what the code does for attributes with a field converter: compare with the raw default (finding F22)
+            exp_raw = set()
+            for f in sc.spec.fields:
+                if not T.is_included(f, sc.ovs, sc.incl) or not hasattr(inst, f.name):
+                    continue
+                o = sc.ovs.get(f.name, {})
+                oid = o["oid"] if "oid" in o else sc.oid
+                if f.default is not None and oid and getattr(inst, f.name) == f.default:
+                    continue
+                exp_raw.add(T.key_of(f, sc.ovs, sc.use_alias))
+            if set(d.keys()) != exp_keys and set(d.keys()) == exp_raw and any(f.conv and f.default is not None for f in sc.spec.fields):
+                hist["f22_hits"] = hist.get("f22_hits", 0) + 1
+                v.finding("F22", "omit_if_default ignores the field converter",
+                          {"lane": "TPL/C09", "class": sc.describe(), "instance": repr(inst), "emitted": sorted(d.keys()), "expected": sorted(exp_keys)})
+            elif set(d.keys()) != exp_keys:
+                v.violation("generated unstructure hook does not emit exactly the configured key set",
+                            {"lane": "TPL/C09", "class": sc.describe(), "instance": repr(inst), "emitted": sorted(d.keys()), "expected": sorted(exp_keys)})
+            # --- oracle 2: the structure hook with the same customisation restores the included attributes
+            if any(f.conv for f in sc.spec.fields):
+                continue    # a field converter is applied again on the way in: not an identity by design
+            if any(T.is_included(f, sc.ovs, sc.incl) and not hasattr(inst, f.name) for f in sc.spec.fields):
+                continue
+            hist["roundtrips_checked"] += 1
+            try:
+                # the tagging handlers are not inverse to each other (u: +7, s: 1000*(n+1)+v): compare through them
+                back = st(d, sc.cl)
+                for f in sc.spec.fields:
+                    if not T.is_included(f, sc.ovs, sc.incl):
+                        continue
+                    orig = getattr(inst, f.name)
+                    got = getattr(back, f.name)
+                    if f.typed:
+                        want = 1000 * (intern(f.name) + 1) + (orig + 7)
+                    else:
+                        want = orig
+                    o = sc.ovs.get(f.name, {})
+                    oid = o["oid"] if "oid" in o else sc.oid
+                    if f.default is not None and oid and orig == f.default:
+                        want = f.default      # omitted on the way out, defaulted on the way in
+                    if got != want:
+                        raise AssertionError(f"attribute {f.name}: {got} != {want}")
+            except Exception as e:
+                v.violation("structure hook with the same customisation does not restore the included attributes",
+                            {"lane": "TPL/C09", "class": sc.describe(), "instance": repr(inst), "unstructured": d, "error": repr(e)})
+        if si < 3:
+            v.samples.append({"class": sc.describe()})
+
+    # ---- TypedDict and NamedTuple customisation: direct oracles
+    for dv in (True, False):
+        conv = Converter(detailed_validation=dv)
+        hist["typeddict_checks"] += 1
+        for ren in ("x", "a"):
+            u = td_unstruct(TD, conv, a=override(rename=ren))
+            s_ = td_struct(TD, conv, _cattrs_detailed_validation=dv, a=override(rename=ren))
+            out = u({"a": 5})
+            try:
+                back = s_(out, TD)
+            except Exception as e:
+                back = repr(e)
+            if out != {ren: 5} or back != {"a": 5}:
+                rp = {"lane": "C09/typeddict", "dv": dv, "rename": ren, "unstructured": out, "structured_back": back}
+                if ren == "a":
+                    hist["f12_hits"] += 1
+                    v.finding("F12", "TypedDict structure hook with override(rename=<own name>) deletes the value it just structured", rp)
+                else:
+                    v.violation("TypedDict rename does not round-trip", rp)
+        hist["namedtuple_checks"] += 1
+        nu = namedtuple_dict_unstructure_factory(NT, conv, True, True, a=override(rename="aa"))
+        ns = namedtuple_dict_structure_factory(NT, conv, "from_converter", False, True, a=override(rename="aa"))
+        for inst in (NT(1), NT(1, 5)):
+            out = nu(inst)
+            exp = {"aa": 1} if inst.b == 2 else {"aa": 1, "b": 5}
+            if out != exp or ns(out, NT) != inst:
+                v.violation("NamedTuple dict hooks: rename / omit_if_default do not round-trip",
+                            {"lane": "C09/namedtuple", "dv": dv, "instance": repr(inst), "unstructured": out})
+
+    bad = run_tpl_model(v, f"c09_{v.seed}", cases, flags, "TPL/C09", intern)
+    report_bad(v, bad, cases, meta, flags, "TPL/C09 (generated unstructure template: model dict = implementation dict)", intern)
+    v.coverage["input_distribution"] = hist
+
+
+def K_of(f):
+    """the attribute value a default leads to (field converters are applied to defaults too)"""
+    return T.K(f.default) if f.conv else f.default
